@@ -66,3 +66,25 @@ Definition xguard_count (cs : list xcase) : N :=
 Definition is_qualified (o : xop) : bool := match o with XB _ => false | _ => true end.
 Definition xqual_count (cs : list xcase) : N :=
   fold_left (fun acc c => (acc + N.of_nat (List.length (filter is_qualified (firstn (xguard_prefix PK NM (sinit 0%N) (fst c)) (fst c)))))%N) cs 0%N.
+
+(* ---- with the resolver masks of the function slots (fboundp, symbol-function, function, fdefinition,
+   function-lambda-expression on the same plain / p:n / p::n name): the codes of xcheck_case first; when the
+   calls agree, the same four codes for the masks (3 proved unreachable: C13_fselfcheck_unreachable) ---- *)
+Definition fcase := (list xop * list (list qres) * list (list N))%type.
+Definition fcheck_case (c : fcase) : N :=
+  let base := xcheck_case (fst c) in
+  if negb (N.eqb base 0) then base else
+  let ops := fst (fst c) in
+  let mf := map fobserve (xrun PK VN FN (init 0%N) ops) in
+  let g := xguard_prefix PK NM (sinit 0%N) ops in
+  let sf := map fobserve (sxrun PK VN FN (sinit 0%N) ops) in
+  if list_eqb (list_eqb N.eqb) mf (snd c) then
+    if list_eqb (list_eqb N.eqb) (firstn g mf) (firstn g sf) then 0%N else 3%N
+  else if list_eqb (list_eqb N.eqb) (firstn g (snd c)) (firstn g sf) then 1%N else 2%N.
+Fixpoint fcheck_all_from (i : N) (cs : list fcase) : list (N * N) :=
+  match cs with
+  | [] => []
+  | c :: cs' => let r := fcheck_case c in
+                (if N.eqb r 0 then [] else [(i, r)]) ++ fcheck_all_from (N.succ i) cs'
+  end.
+Definition fcheck_all := fcheck_all_from 0%N.
